@@ -121,6 +121,82 @@ fn grid_t<F: PrimeField>(rec: &mut Rec, fname: &str, lambdas: &[usize], kmax: us
     }
 }
 
+/// The code's relative distance from the parameters themselves (mirror structs), not from the
+/// library's `distance()`: Ligero (rho_inv - 1)/rho_inv, Brakedown beta / rho_inv.
+fn ref_distance<S: Sch>(ck: &CK<S>) -> (usize, usize) {
+    if S::NAME == "BRK" {
+        let m: MBrkParams<Fr381> = convert(ck);
+        (m.rho_inv.1 * m.beta.0, m.rho_inv.0 * m.beta.1)
+    } else {
+        let m: MLigParams = convert(ck);
+        (m.rho_inv - 1, m.rho_inv)
+    }
+}
+
+fn same_fraction(a: (usize, usize), b: (usize, usize)) -> bool {
+    (a.0 as u128) * (b.1 as u128) == (b.0 as u128) * (a.1 as u128)
+}
+
+/// Brakedown with parameters built through the public constructor (constants over different
+/// denominators, Reed-Solomon base case): one row of 2^k evaluations.
+pub fn brakedown_custom(rec: &mut Rec) {
+    use ark_poly_commit::linear_codes::BrakedownPCParams;
+    let q = modulus_of::<Fr381>();
+    for (an, alpha, beta, rho) in [("lowest-terms", (89usize, 500usize), (61usize, 1000usize), (1521usize, 1000usize)), ("scaled", (356, 2000), (183, 3000), (1521, 1000)), ("default-denominators", (178, 1000), (61, 1000), (1521, 1000))] {
+        for k in [6usize, 8, 10] {
+            for wf in [true, false] {
+                let id = format!("BRK/custom/{}/nv={}/wf={}", an, k, wf);
+                if !rec.take(&id) {
+                    continue;
+                }
+                rec.dim("scheme", "BRK");
+                rec.op(3);
+                let ck: CK<SBrk> = BrakedownPCParams::new(128, alpha, beta, rho, 1 << (k + 1), 1, 1 << k, Vec::new(), Vec::new(), Vec::new(), Vec::new(), wf, (), (), ());
+                let cfg = KeyCfg::ml(k);
+                let keys = Keys::<SBrk> { cfg: cfg.clone(), pp: ck.clone(), ck: ck.clone(), vk: ck.clone() };
+                let dist_ref = (rho.1 * beta.0, rho.0 * beta.1);
+                let dist_lib = keys.ck.distance();
+                if !same_fraction(dist_ref, dist_lib) {
+                    viol(rec, "BRK/params/distance", &id, format!("distance() = {}/{} but beta/rho_inv = {}/{}", dist_lib.0, dist_lib.1, dist_ref.0, dist_ref.1));
+                }
+                let p = SBrk::shapes(&cfg, rec.seed).pop().unwrap().1;
+                let z = SBrk::points(&cfg, rec.seed)[0].1.clone();
+                let c = match commit_set::<SBrk>(&keys, vec![lp::<SBrk>("p", p, None, None)], rec.seed, 0) {
+                    Ok(c) => c,
+                    Err(o) => {
+                        viol(rec, "BRK/commit/in-domain", &id, format!("commit failed: {}", o.short()));
+                        continue;
+                    }
+                };
+                let s1 = match open_single::<SBrk>(&keys, &c, &[0], &z, 0, rec.seed, 0) {
+                    Ok(s) => s,
+                    Err(o) => {
+                        viol(rec, "BRK/open/in-domain", &id, format!("open failed: {}", o.short()));
+                        continue;
+                    }
+                };
+                let cm: MComm = convert(c.comms[0].commitment());
+                let bp: BPf<SBrk> = vec![s1.proof.clone()];
+                let pfl: Vec<Vec<MProof<Fr381>>> = convert(&bp);
+                let want = ref_t(&q, 128, dist_ref, cm.metadata.n_ext_cols);
+                let got = pfl[0][0].opening.columns.len();
+                let ok = want == Some(got) && pfl[0][0].opening.paths.len() == got;
+                rec.class(if ok { "columns-ok" } else { "columns-bad" });
+                rec.obs(&format!("BRK|custom|{}|{}|{}", an, k, ok));
+                if !ok {
+                    viol(rec, "BRK/open/column-openings", &id, format!("{} columns opened, the security level needs {:?} for distance {}/{} and codeword length {}", got, want, dist_ref.0, dist_ref.1, cm.metadata.n_ext_cols));
+                }
+                let comms: Vec<&LCm<SBrk>> = c.comms.iter().collect();
+                let d = check_single::<SBrk>(&keys, &comms, &z, &s1.values, &s1.proof, 0, rec.seed, 0);
+                if !d.accepted() {
+                    viol(rec, "BRK/check/honest", &id, format!("honest proof under custom parameters not accepted: {}", d.short()));
+                }
+                rec.sample("BRK-custom", id.clone());
+            }
+        }
+    }
+}
+
 /// Honest proofs: number and position of opened columns.
 pub fn proofs<S: RefOps + HashRef>(rec: &mut Rec)
 where
@@ -160,7 +236,11 @@ where
             let pfl: Vec<Vec<MProof<Fr381>>> = convert(&bp);
             let pf: Vec<MProof<Fr381>> = pfl.into_iter().next().unwrap_or_default();
             let n_ext = cm.metadata.n_ext_cols;
-            let want = ref_t(&q, keys.ck.sec_param(), keys.ck.distance(), n_ext);
+            let dist_ref = ref_distance::<S>(&keys.ck);
+            if !same_fraction(dist_ref, keys.ck.distance()) {
+                viol(rec, &format!("{}/params/distance", S::NAME), &id, format!("distance() = {:?} but the parameters give {:?}", keys.ck.distance(), dist_ref));
+            }
+            let want = ref_t(&q, keys.ck.sec_param(), dist_ref, n_ext);
             let mut ok = pf.len() == 1;
             let mut bad = String::new();
             if ok {
@@ -331,6 +411,7 @@ pub fn run(rec: &mut Rec) {
     proofs::<SLig>(rec);
     proofs::<SMll>(rec);
     proofs::<SBrk>(rec);
+    brakedown_custom(rec);
     encoders::<SLig>(rec);
     encoders::<SMll>(rec);
     encoders::<SBrk>(rec);
